@@ -60,17 +60,17 @@ getStartIndex(
     // We always subtract 1 for C-style index, since
     // XPath indexes from 1.  
 
-    // If we end up with NaN, INF, or -INF, then no possible index
+    // If we end up with NaN or INF, then no possible index
     // can be greater than or equal to that, so just return
     // the start index as the length of the string.  That
     // will result in an empty string, which is what we want.
     if (DoubleSupport::isNaN(theSecondArgValue) == true ||
-        DoubleSupport::isPositiveInfinity(theSecondArgValue) == true ||
-        DoubleSupport::isNegativeInfinity(theSecondArgValue) == true)
+        DoubleSupport::isPositiveInfinity(theSecondArgValue) == true)
     {
         return theStringLength;
     }
-    // Anything less than, or equal to 1 is 0.
+    // Anything less than, or equal to 1 is 0.  That includes
+    // -INF: every position is greater than or equal to it.
     else if (DoubleSupport::lessThanOrEqual(theSecondArgValue, 1) == true)
     {
         assert(DoubleSupport::round(theSecondArgValue) == theSecondArgValue);
@@ -119,7 +119,6 @@ getSubstringLength(
 {
     assert(theStartIndex < theSourceStringLength);
     assert(DoubleSupport::isNaN(theSecondArgValue) == false);
-    assert(DoubleSupport::isNegativeInfinity(theSecondArgValue) == false);
     assert(DoubleSupport::isPositiveInfinity(theSecondArgValue) == false);
 
     typedef XalanDOMString::size_type   size_type;
@@ -145,7 +144,8 @@ getSubstringLength(
         }
         else if (DoubleSupport::isPositiveInfinity(theThirdArgValue) == true)
         {
-            return theMaxLength;
+            // -INF + INF is NaN, and no position is less than that.
+            return DoubleSupport::isNegativeInfinity(theSecondArgValue) == true ? 0 : theMaxLength;
         }
         else
         {
